@@ -283,12 +283,19 @@ func (p *GleecePipeline) getModels() (definitions.Models, error) {
 		reducedEnums = append(reducedEnums, reduced)
 	}
 
+	// Same-named models of different packages must not be left in graph (map) order either
 	slices.SortFunc(reducedStructs, func(a, b definitions.StructMetadata) int {
-		return strings.Compare(a.Name, b.Name)
+		if byName := strings.Compare(a.Name, b.Name); byName != 0 {
+			return byName
+		}
+		return strings.Compare(a.PkgPath, b.PkgPath)
 	})
 
 	slices.SortFunc(reducedEnums, func(a, b definitions.EnumMetadata) int {
-		return strings.Compare(a.Name, b.Name)
+		if byName := strings.Compare(a.Name, b.Name); byName != 0 {
+			return byName
+		}
+		return strings.Compare(a.PkgPath, b.PkgPath)
 	})
 
 	return definitions.Models{
